@@ -63,7 +63,20 @@ def collect_traces(ctx, focus, total, tag, agg, chunk=250, race=False):
             done = (crashed["seed"] - base) + 1
             continue
         if blocked:
-            agg["blocked"].append(blocked)
+            # C07: a verdict only if the same scenario blocks again in two fresh runs; then one is enough
+            again = 0
+            for _ in range(2):
+                _, c2, b2 = run_scenarios(ctx, focus, 1, blocked["seed"], tag + "-reblock", race)
+                if b2:
+                    again += 1
+            if again == 2:
+                core.report(ctx, "a provider call blocked (3 of 3 runs) in scenario %s (%s)" % (blocked["seed"], focus),
+                            {"driver": "joe", "scenario_seed": blocked["seed"], "focus": focus, "goroutines": blocked["dump"]}, "joe:blocked")
+                agg["stop"] = True
+                return traces
+            agg["notes"]["unreproduced_timeouts"] = agg["notes"].get("unreproduced_timeouts", 0) + 1
+            if agg["notes"]["unreproduced_timeouts"] > 3:
+                raise core.ToolFailure("scenarios keep missing their deadline without blocking reproducibly (last: %s)" % blocked["seed"])
             done = (blocked["seed"] - base) + 1
             continue
         done += n
@@ -75,14 +88,14 @@ TRACE_INVS = ["NoPanic", "NoLateCall", "Delivery", "Complete", "Flushed", "Progr
 
 
 SUBS = ["s0", "s1", "s2", "slate"]
-PUBS = ["h0", "h1", "h2", "h3"] + ["p%dk%d" % (g, k) for g in range(3) for k in range(3)] + ["late"]
+PUBS = ["h0", "h1", "h2", "h3", "h4"] + ["p%dk%d" % (g, k) for g in range(3) for k in range(3)] + ["late"]
 DOWNS = ["k0", "k1", "k2", "k9"]
 NONE = "<none>"
 
 
 def pub_after():
     after = {p: NONE for p in PUBS}
-    for i in range(1, 4):
+    for i in range(1, 5):
         after["h%d" % i] = "h%d" % (i - 1)
     for g in range(3):
         for k in range(1, 3):
@@ -204,13 +217,13 @@ def trace_check(ctx, focus, total, tag, agg, race=False, chunk=250):
             seed = json.loads(sc[0]).get("seed") if sc else None
             core.report(ctx, "JoeTrace.tla rejects what the real Joe did in scenario %s (%s): %s" % (seed, focus, (rej or "")[:700]),
                         {"trace_spec": "JoeTrace", "trace": keep, "scenario_seed": seed, "focus": focus, "rejected": rej}, "joe:trace:" + classify(rej))
-            # validate the scenarios after the rejected one as well
-            if m and b < len(lines):
-                rest = tr + ".rest"
+            # validate the scenarios after the rejected one as well (a handful of rejections is verdict enough)
+            agg["rejections"] = agg.get("rejections", 0) + 1
+            if m and b < len(lines) and agg["rejections"] < 6:
+                rest = os.path.join(ctx.work, "joe-%s-rest-%d.ndjson" % (tag, agg["rejections"]))
                 with open(rest, "w") as f:
                     f.write("\n".join(lines[b:]) + "\n")
                 traces.append(rest)
-    confirm_blocked(ctx, agg)
 
 
 def classify(rej):
@@ -219,22 +232,6 @@ def classify(rej):
         return "event:" + m.group(1)
     m = re.search(r"Invariant (\w+)", rej or "")
     return "invariant:" + (m.group(1) if m else "?")
-
-
-def confirm_blocked(ctx, agg):
-    """C07: a scenario in which a call did not return within 10 s is a violation only if it blocks again in two fresh runs."""
-    for b in agg["blocked"]:
-        again = 0
-        for _ in range(2):
-            _, crashed, blocked = run_scenarios(ctx, b["focus"], 1, b["seed"], "reblock")
-            if blocked:
-                again += 1
-        if again == 2:
-            core.report(ctx, "a provider call blocked (3 of 3 runs) in scenario %s (%s)" % (b["seed"], b["focus"]),
-                        {"driver": "joe", "scenario_seed": b["seed"], "focus": b["focus"], "goroutines": b["dump"]}, "joe:blocked")
-        else:
-            raise core.ToolFailure("scenario %s did not finish within its deadline once but not reproducibly (%d/2)" % (b["seed"], again))
-    agg["blocked"] = []
 
 
 def new_agg():
